@@ -338,7 +338,8 @@ def run(ck, pairs, tag, describe, num_queries=None):
     skipped_modes = {}
     for c, b in pairs:
         tq, btq = c["tq"], b["tq"]
-        if tq["mode"] not in ("plan", "tags", "values") or btq["mode"] != tq["mode"]:
+        # "eval" (PlanEval) since round 4: C11's harness dumps these trees too (mode added by b3-c11, b542e95)
+        if tq["mode"] not in ("plan", "tags", "values", "eval") or btq["mode"] != tq["mode"]:
             skipped_modes[tq["mode"]] = skipped_modes.get(tq["mode"], 0) + 1
             continue
         try:
@@ -393,6 +394,8 @@ def run(ck, pairs, tag, describe, num_queries=None):
             continue
         sqls[r["id"]] = sql
         rows.append("T %d %s" % (r["id"], term))
+        if r["mode"] == "eval":
+            continue          # C11's planner model (TraceqlPlan.plan) has no evaluation entry point: real trees only
         try:
             mode = {"plan": "MSearch", "tags": "MTags"}.get(r["mode"]) or "(MValues %s)" % ml.s(r["key"])
             mrows.append("M %d %s %s %s" % (r["id"], mode, sx_ctx(o["ctx"], ml), sx_script(o["ast"], ml)))
@@ -442,7 +445,7 @@ def run(ck, pairs, tag, describe, num_queries=None):
     # the planner MODEL of C11 (model/TraceqlPlan.v: what the value-independence theorems are about) on the same requests
     mbad, nmodel = [], 0
     for i, sql in sqls.items():
-        if i in mism or i in untrans_ast:
+        if i in mism or i in untrans_ast or reqs[i]["mode"] == "eval":
             continue
         m = mres.get(i)
         nmodel += 1
